@@ -49,7 +49,10 @@ let s_gw g obs =
         | _ -> if exists then (List.filter (fun r -> r.gr_eui <> e) !st.gs_regs, true) else (!st.gs_regs, false) in
       st := { !st with gs_regs = regs };
       "R" ^ (if ok then "1" else "0")
-    | "G" :: si :: hex :: cls :: rest ->
+    | gk :: si :: hex :: cls :: rest when gk = "G" || gk = "GF" ->
+      (* GF: the registry look-up for this datagram fails - as if no gateway were registered, for this datagram only *)
+      let saved_regs = !st.gs_regs in
+      if gk = "GF" then st := { !st with gs_regs = [] };
       let si = int_of_string si in
       let data = bytes_of_hex hex in
       let opaque = (cls = "opaque") in
@@ -60,7 +63,7 @@ let s_gw g obs =
          let d = { dg_pkt = pkt; dg_host = coq_string_of (fst (List.nth sockl si)); dg_port = n_of_int (List.nth socks si); dg_body = body } in
          let was_auth = authorised !st d in
          let ((s', replies), fwds) = gw_step !st d in
-         st := s';
+         st := { s' with gs_regs = saved_regs };
          let rs = List.sort compare (List.filter_map (fun r ->
              let idx = sock_index (ocaml_string_of r.rp_host) (int_of_n r.rp_port) in
              if idx < 0 then None else
@@ -75,7 +78,8 @@ let s_gw g obs =
             let ifw = (try let j = String.index io ']' in String.sub io (j + 2) (String.length io - j - 2) with _ -> "") in
             if ifw <> "[" ^ String.concat " " (List.map fwd_str fwds) ^ "]" then verdict := "bad:rxpk-entries-not-handed-over-once-in-order-intact");
          "[" ^ String.concat " " rs ^ "] " ^ (if opaque then "F?" else "[" ^ String.concat " " (List.map fwd_str fwds) ^ "]")
-       | _ -> if io <> "[] []" && io <> "[] F?" && !verdict = "ok" then verdict := "bad:malformed-datagram-answered";
+       | _ -> st := { !st with gs_regs = saved_regs };
+         if io <> "[] []" && io <> "[] F?" && !verdict = "ok" then verdict := "bad:malformed-datagram-answered";
          "[] " ^ (if opaque then "F?" else "[]"))
     | ["DL"; eui; clock; delay; freq; datr; ver; raw; dlhost] ->
       let host = coq_string_of dlhost in
